@@ -95,9 +95,12 @@ impl Device {
             | Operation::Push
             | Operation::Pop => {
                 if self.allow(Tiny1x) {
-                    // ATtiny10, 20, 40 no ADIW, SBIW, one word LDS/STS
+                    // ATtiny10, 20, 40 no ADIW, SBIW, one word LDS/STS; no LDD, STD either:
+                    // their opcodes are the one-word LDS/STS of that core
                     match op {
-                        Operation::Adiw | Operation::Sbiw => self.allow(Avr8l),
+                        Operation::Adiw | Operation::Sbiw | Operation::Ldd | Operation::Std => {
+                            self.allow(Avr8l)
+                        }
                         _ => true,
                     }
                 } else {
